@@ -586,8 +586,8 @@ std::string run(const QJsonObject &c)
         }
         // state after the root ran
         if (lm.isFormatted() != !model.formatted.isNull() || lm.formattedMessage() != model.current() || lm.attributes() != model.attrs)
-            return where + "message state after the root pipeline: formatted='" + lm.formattedMessage().toStdString() + "' attrs={"
-                    + renderAttrs(lm.attributes()).toStdString() + "} expected formatted='" + model.current().toStdString() + "' attrs={"
+            return where + "message state after the root pipeline: " + (lm.isFormatted() ? "formatted='" + lm.formattedMessage().toStdString() + "'" : std::string("unformatted")) + " attrs={"
+                    + renderAttrs(lm.attributes()).toStdString() + "}, in-order evaluation predicts " + (!model.formatted.isNull() ? "formatted='" + model.current().toStdString() + "'" : std::string("unformatted")) + " attrs={"
                     + renderAttrs(model.attrs).toStdString() + "}";
     }
     g_real = nullptr;
